@@ -1326,6 +1326,8 @@ func (fx *FuncExec) binop(st *State, op token.Token, a, b Val, rt types.Type, em
 				t = eq("(s.arr "+a.S+")", "0")
 			} else if a.S == "(mkSlice 0 0 0 0)" {
 				t = eq("(s.arr "+b.S+")", "0")
+			} else if !emitSafety {
+				t = eq(a.S, b.S) // in contracts: the same slice header
 			} else {
 				panic(toolLimit("slice comparison"))
 			}
